@@ -70,6 +70,11 @@ CHECKS = {
     technique="executed gate/measure logs of the real SDK->controller pipeline validated by TLC: operator identities by the Pauli-rotation normal form (NvEquiv with reference circuits from Toolbox), parity measurements by Heisenberg pull-back (ParityCheck), state preparation by the fixed-point angle predicate (AngleTrace)",
     text="toffoli_gate (all 6 role assignments) and t_inverse are run through the real SDK, real message bytes and the real controller; TLC proves the executed gate sequence equal, up to global phase and for every input state, to the reference H CCZ H (CCZ as its 7 commuting Z-string rotations) and to Rz(-pi/4). parity_meas is run for every signed Pauli string over I,X,Y,Z of length 1..3 and both outcomes: TLC checks that the measured observable pulled back to the initial frame is exactly +P (ancilla in |0>), that no data operator commuting with P is disturbed, and the rig checks the returned bit = outcome xor sign. set_qubit_state on a (theta, phi) grid incl. negative angles: structure exactly, angles by the C19 predicate.",
     note="Trusted: TLC, Pauli.tla, the rig's gate log (scripted outcomes instead of a state-vector backend - the operator identity is stronger than sampled states). The Toffoli reference is sanity-checked numerically against the 8x8 matrix."),
+ "C05": dict(
+    engine="host", category="model_checking", design="5 C05",
+    technique="TLA+ big-step semantics of SDK host programs (Host.tla); histories of SDK calls executed on the real SDK -> real message bytes -> real controller are validated by TLC (HostTrace) against the direct evaluation; failing histories are shrunk by delta debugging (real SDK + TLC in the loop)",
+    text="Host programs built from if_eq/ne/lt/ge/ez/nz (context and callback forms), loop, loop_body, foreach, enumerate, loop_until with an at-most exit condition and cleanup, add with and without modulus and with future operands, arrays with initial values (all-equal, mixed, undefined), measurement into new arrays, array entries (constant and loop-variable indices) and registers, nested to depth 3 and split over 1-3 flushes with host reads early and late, are executed through the real pipeline; per flush the controller arrays and the executed gate/measurement log, per read the value the real handle returns, are compared by TLC with Host!Flush. Directed cases cover every comparison x form x truth value, nested loops reusing indices, every placement of an extra flush.",
+    note="Trusted: TLC, Host.tla (my reading of 'executing the program directly'), harness/sdkrun.py (annotates programs with the SDK's address/qubit-id choices). Register futures are only exercised inside the subroutine that creates them; their cross-flush defects are listed as known findings. Three defects found and repaired in /repo (e3c4e1a, 774427d, 416ed1e)."),
 }
 
 REASON_TODO = "check not built yet (work in progress; see DESIGN.md section 9)"
